@@ -736,9 +736,9 @@ def eq2sdss(ra_in, dec_in, dtype="f8"):
     # generate clambda, ceta
     # do things in place to save memory
 
-    # clambda = -arcsin( x ) (not a copy clambda=x)
-    arcsin(x, x)
-    clambda = x
+    # clambda = -arcsin( x ), computed with arctan2 which keeps full
+    # precision near the survey poles
+    clambda = arctan2(x, sqrt(y * y + z * z))
     clambda *= -1
 
     arctan2(z, y, z)
